@@ -1025,6 +1025,14 @@ where
                         label: label.to_string(),
                     })?;
 
+                    // Same shape requirement as in `succinct_check`: a shifted commitment is present
+                    // exactly when a degree bound is, so that `construct_labeled_commitments` reads the
+                    // combined elements back in the positions they were pushed at.
+                    assert_eq!(
+                        cur_comm.degree_bound().is_some(),
+                        cur_comm.commitment().shifted_comm.is_some()
+                    );
+
                     if num_polys == 1 && cur_comm.degree_bound().is_some() {
                         assert!(
                             coeff.is_one(),
